@@ -22,6 +22,24 @@ Definition robs_eqb (a b : robs) : bool := beq (fst a) (fst b) && list_eqb tobs_
 Definition hobs_eqb (a b : hobs) : bool := beq (fst a) (fst b) && list_eqb robs_eqb (snd a) (snd b).
 Definition tbl_eqb : tblobs -> tblobs -> bool := list_eqb hobs_eqb.
 
+(* what the PROPERTY talks about: routes, targets, tags, options, weights -- not the sign of the
+   effective weight ([live], C04/C06's subject) and not which error a rejected script gets.  The spec
+   side compares with these; the correspondence side ([same]) compares everything. *)
+Definition tobs_spec_eqb (a b : tobs) : bool :=
+  match a, b with
+  | T s u w tg op _, T s' u' w' tg' op' _ =>
+      beq s s' && beq u u' && wt_eqb w w' && list_eqb beq tg tg' && list_eqb kv_eqb op op'
+  end.
+Definition tbl_spec_eqb : tblobs -> tblobs -> bool :=
+  list_eqb (fun a b : hobs => beq (fst a) (fst b)
+     && list_eqb (fun x y : robs => beq (fst x) (fst y) && list_eqb tobs_spec_eqb (snd x) (snd y)) (snd a) (snd b)).
+Definition out_spec_eqb (a b : outcome tblobs) : bool :=
+  match a, b with
+  | Ok x, Ok y => tbl_spec_eqb x y
+  | Err _, Err _ => true
+  | _, _ => false
+  end.
+
 Definition out_eqb {A} (eqb : A -> A -> bool) (a b : outcome A) : bool :=
   match a, b with
   | Ok x, Ok y => eqb x y
@@ -180,6 +198,8 @@ Inductive case :=
    glob.Compile rejects; wlits: every weight token -> strconv.ParseFloat *)
 | CScript (urls : list (str * option str)) (badglobs : list str) (wlits : list (str * outcome wt))
           (text : str) (impl : outcome tblobs)
+(* NewTableCustom(defs): the RouteDef-level entry (admin API, custom backends) *)
+| CDefs (urls : list (str * option str)) (badglobs : list str) (defs : list def) (impl : outcome tblobs)
 (* t.String() and NewTable(t.String()) for a table t the real code built *)
 | CRound (urls : list (str * option str)) (badglobs : list str)
          (tbl : tblobs) (impl_text : str) (impl_rt : outcome tblobs).
@@ -205,11 +225,21 @@ Definition check_case (c : case) : N :=
                       | Err k => Err k
                       | Panic => Panic
                       end in
-      let spec := out_eqb tbl_eqb (canon_out impl) (canon_out spec_tbl)
+      let spec := out_spec_eqb (canon_out impl) (canon_out spec_tbl)
                   && match impl with Ok t => shape_ok t | Err _ => true | Panic => false end in
       let region : option N := None in
       let nontriv := match defs with Ok ds => interesting canon gl [] ds | _ => false end in
       verdict same spec region nontriv
+  | CDefs urls bad ds impl =>
+      let canon := canon_of urls in
+      let gl := glob_of bad in
+      let fin (o : outcome table) := match o with Ok t => Ok (obs_of_table (sort_table t)) | Err k => Err k | Panic => Panic end in
+      let m := fin (run canon gl ds) in
+      let same := out_eqb tbl_eqb impl m in
+      let spec_tbl := fin (run canon gl (map norm_def ds)) in
+      let spec := out_spec_eqb (canon_out impl) (canon_out spec_tbl)
+                  && match impl with Ok t => shape_ok t | Err _ => true | Panic => false end in
+      verdict same spec None (interesting canon gl [] ds)
   | CRound urls bad tbl itext irt =>
       let canon := canon_of urls in
       let gl := glob_of bad in
